@@ -287,6 +287,22 @@ def wfUtf16 : List Nat → Bool
 /-- 16-bit code units (surrogates in any arrangement allowed) -/
 def units16 (us : List Nat) : Bool := us.all fun u => decide (u < 0x10000)
 
+/-! ### The property as a reader states it -/
+
+/-- `f` is a well-formed, self-consistent VGM file whose GD3 block holds exactly the strings
+`strs`: magic and EOF offset exact; from the data offset the stream consists of defined commands
+only, up to the end marker (`cs`), followed by `tail`; the header's total sample count is the sum
+of all waits; the loop fields are zero, or the loop offset addresses a command boundary and the
+loop sample count is the sum of the waits from there to the end; the GD3 offset addresses `tail`;
+the clock of every chip written to is declared; every stream start addresses bytes of the data
+bank loaded before it; `tail` is exactly one GD3 block (magic, version, length) splitting into the
+NUL-terminated UTF-16 strings `strs`. -/
+structure WellFormed (f : Bytes) (strs : List (List Nat)) : Prop where
+  magic : magicOk f
+  eof : eofOk f
+  body : ∃ cs tail, streamIs f cs tail ∧ sampleTotalOk f cs ∧ loopOk f cs ∧ gd3OffsetOk f cs ∧
+    clocksOk f cs ∧ pcmOk cs ∧ gd3Is tail strs
+
 /-! ### Executable analysis used by the judge (one pass; the same definitions as above) -/
 
 structure Info where
